@@ -97,3 +97,11 @@ func verifInt64RoundTrip(x int64) (int64, bool) {
 func verifUint64RoundTrip(x uint64) (uint64, bool) {
 	return FromUint64(x).Uint64()
 }
+
+// verifFormatParse is Parse(Format(d, verb, -1)) compared with d, for the verbs e, E, g, G.
+func verifFormatParse(d Decimal, verb byte) (Decimal, error, bool) {
+	s := Format(d, verb, -1)
+	v, err := Parse(s)
+	eq := v.Equal(d)
+	return v, err, eq
+}
